@@ -238,6 +238,14 @@ def run_program(rec, hub, seed_rng, steps, letters="abcd", ill_rate=0.3, props=(
                 foreign = [l for l in letters if l not in sl]
                 if foreign:
                     pa = fd.FlodymArray(dims=gen.dimset(fd, U, (foreign[0],)), values=np.full(gen.shape_of(U, (foreign[0],)), 3.0))
+                    if rng.random() < 0.35:
+                        # same letter as one of the model's dimensions, other items (fewer of them)
+                        l_ = sl[-1] if len(sl) > 1 else "t"
+                        base = Ut[l_]
+                        twin_ = fd.Dimension(letter=l_, name=base.name, items=list(base.items)[: max(1, len(base.items) - 1)])
+                        pb = fd.FlodymArray(dims=fd.DimensionSet(dim_list=[twin_]), values=np.full((len(twin_.items),), 3.0))
+                        if len(twin_.items) != len(base.items):
+                            return ("lifetime: parameter over a same-lettered other dimension", None, [lambda: fd.NormalLifetime(dims=ds, time_letter="t", mean=pb, std=1.0)])
                     if rng.random() < 0.5:
                         return ("lifetime: parameter over a foreign dimension", None, [lambda: fd.NormalLifetime(dims=ds, time_letter="t", mean=pa, std=1.0)])
                     lm2 = fd.WeibullLifetime(dims=ds, time_letter="t")
